@@ -20,7 +20,7 @@ from sim.world import Run
 
 ID = "C30"
 LEVEL = "exploration"
-RUNS = {"quick": 12000, "thorough": 200000}
+RUNS = {"quick": 12000, "thorough": 1200000}
 BUDGET = {"quick": 100.0, "thorough": 3300.0}
 CHUNK = 100
 RULE = ("one run = one secure routing session: a seeded synchronisation answer pattern, then timed genuine/forged timer "
